@@ -207,7 +207,7 @@ pub fn chunk_type(spec: &ChunkSpec) -> u16 {
     }
 }
 
-fn write_chunk_body(w: &mut Writer, spec: &ChunkSpec, fmt: Fmt, flag_junk: u32) {
+fn write_chunk_body(w: &mut Writer, spec: &ChunkSpec, fmt: Fmt, flag_junk: u32, opacity_override: Option<u8>) {
     match spec {
         ChunkSpec::Layer { l, junk } => {
             w.u16(Kind::Flag, "flags", l.flags);
@@ -221,7 +221,7 @@ fn write_chunk_body(w: &mut Writer, spec: &ChunkSpec, fmt: Fmt, flag_junk: u32) 
             w.u16(Kind::Reserved, "default_w", junk.default_w);
             w.u16(Kind::Reserved, "default_h", junk.default_h);
             w.u16(Kind::Enum, "blend", l.blend);
-            w.u8(Kind::Value, "opacity", l.opacity);
+            w.u8(Kind::Value, "opacity", opacity_override.unwrap_or(l.opacity));
             w.u8(Kind::Reserved, "r1", junk.r1);
             w.u16(Kind::Reserved, "r2", junk.r2);
             w.string("name", &l.name);
@@ -449,7 +449,7 @@ pub fn encode(spec: &FileSpec) -> (Vec<u8>, FieldMap) {
             let csize_off = w.buf.len();
             w.u32(Kind::Len, "size", 0);
             w.u16(Kind::Enum, "ctype", ty);
-            write_chunk_body(&mut w, &item.spec, spec.fmt, item.flag_junk);
+            write_chunk_body(&mut w, &item.spec, spec.fmt, item.flag_junk, item.opacity_override);
             w.bytes(Kind::Reserved, "pad", &item.pad);
             let cend = w.buf.len();
             w.patch_u32(csize_off, (cend - cstart) as u32);
